@@ -4,6 +4,7 @@ from __future__ import annotations
 import json
 
 from .. import core, realcode, gramgen
+from . import lexmodel
 
 
 def sexp(tok):
@@ -79,8 +80,11 @@ def run(tier, seed):
                 'expressions, nesting) rendered as text, plus mutants (token deleted / inserted / doubled / swapped / appended, truncated), lexed and parsed by the real '
                 'Lexer + AstBuilder: outcome (accepted tree / parser exception / foreign exception) vs the Lean interpreter run on the grammar table of this run; '
                 'on the real code: an accepted tree\'s leaves are exactly the lexed tokens; whitespace (space, tab, newline; leading, between, trailing) and the choice '
-                'of , or ; do not change the outcome nor the value. distinct = distinct formula texts')
-    chk.assumptions += ['the regex lexer is not modelled in Lean (its whitespace / separator behaviour is checked as a law on the real code); the model starts from the token classes the real lexer produced']
+                'of , or ; do not change the outcome nor the value; Lexer.parse and <class>.get vs the Lean lexer on formula texts, near-miss references, literals and '
+                'token soups; text -> tree through the Lean lexer + parser vs the real front end. distinct = distinct formula texts')
+    chk.assumptions += ['the lexer model (Model/Lex.lean) has hand-written scanners for the five complex regexes (matrix, range, cell, pattern, literal), pinned to their regex sources by '
+                        'pinned_sources and compared with <class>.get / Lexer.parse on generated texts; \\w \\d \\s are modelled on ASCII + Cyrillic letters (checked per character '
+                        'against Python); whitespace insensitivity between tokens is a law on the real code, not a theorem']
     chk.build = core.lean_build(['C05'], tier)
     if not chk.build.driver_ok:
         raise RuntimeError('driver did not build:\n' + chk.build.log[-2000:])
@@ -115,6 +119,17 @@ def run(tier, seed):
                                'tokens': classes, 'tree': out[:400], 'stream': 'whole-or-rejected'})
         cases.append(('pg 300 EntryPointToken ' + ' '.join(classes), out, {'formula': text}))
     chk.judge('parse', cases, sample_cap=4)
+    # the whole front end in the model: text -> (Lean lexer) -> tokens -> (Lean token-set parser with the proved depth) -> tree
+    front = []
+    for text, valid in texts:
+        if not all(c in lexmodel.ALPHABET for c in text):
+            continue
+        out, classes, parsed = real_parse(text)
+        if out == 'LEX-REJECT':
+            out = lexmodel.real_lex(text)
+        front.append(('lp ' + lexmodel.S(text), out, {'formula': text}))
+    chk.judge('text-to-tree', front, sample_cap=4)
+    lexmodel.run_lexer_streams(chk, tier, [t for t, _ in texts[:600 if tier == 'quick' else 6000]])
     laws(chk, tier)
     return chk.finish()
 
